@@ -68,40 +68,26 @@ theorem substTy_concrete (θ : Subst) {t : Ty} (h : concreteTy t = true) : subst
 
 /-! ### value typing -/
 
-theorem valTys_nil_iff {S : Sig} {ts : List Ty} : valTys S [] ts = true ↔ ts = [] := by
-  cases ts <;> simp [valTys]
+variable {S : Sig} {P : Prog}
 
-theorem valTys_cons {S : Sig} {v : Val} {vs : List Val} {ts : List Ty} (h : valTys S (v :: vs) ts = true) :
-    ∃ t ts', ts = t :: ts' ∧ valTy S v t = true ∧ valTys S vs ts' = true := by
-  cases ts with
-  | nil => simp [valTys] at h
-  | cons t ts' =>
-    simp only [valTys, Bool.and_eq_true] at h
-    exact ⟨t, ts', rfl, h.1, h.2⟩
-
-theorem valTys_get {S : Sig} : ∀ {vs : List Val} {ts : List Ty}, valTys S vs ts = true → ∀ (i : Nat) (t : Ty), ts[i]? = some t →
-    ∃ v, vs[i]? = some v ∧ valTy S v t = true := by
+theorem VTs_get : ∀ {vs : List Val} {ts : List Ty}, VTs S P vs ts → ∀ (i : Nat) (t : Ty), ts[i]? = some t →
+    ∃ v, vs[i]? = some v ∧ VT S P v t := by
   intro vs
   induction vs with
-  | nil =>
-    intro ts h i t ht
-    rw [valTys_nil_iff.1 h] at ht; simp at ht
+  | nil => intro ts h i t ht; cases h; simp at ht
   | cons v vs ih =>
     intro ts h i t ht
-    obtain ⟨t0, ts', rfl, h1, h2⟩ := valTys_cons h
-    cases i with
-    | zero => simp at ht; subst ht; exact ⟨v, by simp, h1⟩
-    | succ i => simp at ht; simpa using ih h2 i t ht
-
-theorem valTys_mk {S : Sig} {v : Val} {vs : List Val} {t : Ty} {ts : List Ty} (h1 : valTy S v t = true)
-    (h2 : valTys S vs ts = true) : valTys S (v :: vs) (t :: ts) = true := by
-  simp [valTys, h1, h2]
+    cases h with
+    | cons h1 h2 =>
+      cases i with
+      | zero => simp at ht; subst ht; exact ⟨v, by simp, h1⟩
+      | succ i => simp at ht; simpa using ih h2 i t ht
 
 def ctorTyName : Ctor → String
   | .enum tn _ _ => tn
   | .struct tn => tn
 
-theorem fieldTys_nominal {S : Sig} {c : Ctor} {ty : Ty} {fts : List Ty} (h : fieldTys S c ty = some fts) :
+theorem fieldTys_nominal {c : Ctor} {ty : Ty} {fts : List Ty} (h : fieldTys S c ty = some fts) :
     (nominalArgs (ctorTyName c) ty).isSome = true := by
   cases c with
   | enum tn v idx =>
@@ -115,7 +101,7 @@ theorem fieldTys_nominal {S : Sig} {c : Ctor} {ty : Ty} {fts : List Ty} (h : fie
     · rename_i h2; simp [ctorTyName, h2]
     · cases h
 
-theorem enumFieldTys_nominal {S : Sig} {tn : String} {idx : Nat} {ty : Ty} {fts : List Ty}
+theorem enumFieldTys_nominal {tn : String} {idx : Nat} {ty : Ty} {fts : List Ty}
     (h : enumFieldTys S tn idx ty = some fts) : (nominalArgs tn ty).isSome = true := by
   unfold enumFieldTys at h
   split at h
@@ -124,32 +110,49 @@ theorem enumFieldTys_nominal {S : Sig} {tn : String} {idx : Nat} {ty : Ty} {fts 
     · cases h
   · cases h
 
-/-- a value typed at a nominal type carries that type's name -/
-theorem valTy_nominal {S : Sig} {v : Val} {ty : Ty} (h : valTy S v ty = true) :
-    match v with
-    | .enumV n _ _ => (nominalArgs n ty).isSome = true ∧ isEnumTy ty = true
-    | .structV n _ => (nominalArgs n ty).isSome = true ∧ isStructTy ty = true
-    | _ => True := by
-  cases v <;> simp only [] <;> simp only [valTy, Bool.and_eq_true] at h
-  · refine ⟨?_, h.1⟩
-    have h := h.2
-    split at h
-    · rename_i h2; exact enumFieldTys_nominal h2
-    · cases h
-  · refine ⟨?_, h.1⟩
-    have h := h.2
-    split at h
-    · rename_i h2; exact fieldTys_nominal (c := .struct _) h2
-    · cases h
+theorem VT_prim (p : Prim) : VT S P (primVal p) (primTy p) := by
+  cases p <;> simp only [primVal, primTy] <;> constructor
 
 /-- canonical forms -/
-theorem valTy_bool {S : Sig} {v : Val} (h : valTy S v .bool = true) : ∃ b, v = .bool b := by
-  have hn := valTy_nominal h
-  cases v <;> simp [valTy] at h <;> simp [nominalArgs, isEnumTy, isStructTy] at hn
-  exact ⟨_, rfl⟩
+theorem VT_bool {v : Val} (h : VT S P v .bool) : ∃ b, v = .bool b := by
+  cases h with
+  | bool b => exact ⟨b, rfl⟩
+  | enumV h1 _ _ => simp [isEnumTy] at h1
+  | structV h1 _ _ => simp [isStructTy] at h1
 
-theorem valTy_prim {S : Sig} (p : Prim) : valTy S (primVal p) (primTy p) = true := by
-  cases p <;> simp [primVal, primTy, valTy]
+theorem VT_str {v : Val} (h : VT S P v .string) : ∃ s, v = .str s := by
+  cases h with
+  | str s => exact ⟨s, rfl⟩
+  | enumV h1 _ _ => simp [isEnumTy] at h1
+  | structV h1 _ _ => simp [isStructTy] at h1
+
+theorem VT_unit {v : Val} (h : VT S P v .unit) : v = .unit := by
+  cases h with
+  | unit => rfl
+  | enumV h1 _ _ => simp [isEnumTy] at h1
+  | structV h1 _ _ => simp [isStructTy] at h1
+
+theorem VT_int {v : Val} {b : Nat} {s : Bool} (h : VT S P v (.int b s)) : ∃ x, v = .int b s x := by
+  cases h with
+  | int _ _ x => exact ⟨x, rfl⟩
+  | enumV h1 _ _ => simp [isEnumTy] at h1
+  | structV h1 _ _ => simp [isStructTy] at h1
+
+theorem VT_float {v : Val} {b : Nat} (h : VT S P v (.float b)) : ∃ x, v = .float b x := by
+  cases h with
+  | float _ x => exact ⟨x, rfl⟩
+  | enumV h1 _ _ => simp [isEnumTy] at h1
+  | structV h1 _ _ => simp [isStructTy] at h1
+
+theorem VT_tuple {v : Val} {ts : List Ty} (h : VT S P v (.tuple ts)) : ∃ vs, v = .tuple vs ∧ VTs S P vs ts := by
+  cases h with
+  | tuple h1 => exact ⟨_, rfl, h1⟩
+  | enumV h1 _ _ => simp [isEnumTy] at h1
+  | structV h1 _ _ => simp [isStructTy] at h1
+
+theorem VTs_single {args : List Val} {t : Ty} (h : VTs S P args [t]) : ∃ a, args = [a] ∧ VT S P a t := by
+  cases h with
+  | cons h1 h2 => cases h2; exact ⟨_, rfl, h1⟩
 
 /-! ### environments -/
 
@@ -161,56 +164,40 @@ theorem lookupEnv_cons (k : String) (v : Val) (ρ : Env) (x : String) :
   · simp [h]
   · simp [h]
 
-theorem envTy_lookup {S : Sig} {θ : Subst} : ∀ {ρ : Env} {Γ : TyEnv}, envTy S θ ρ Γ = true → ∀ x,
+theorem ET_lookup {θ : Subst} : ∀ {ρ : Env} {Γ : TyEnv}, ET S P θ ρ Γ → ∀ x,
     (match lookupVar Γ x with
-     | some t => ∃ v, lookupEnv ρ x = some v ∧ valTy S v (substTy θ t) = true
+     | some t => ∃ v, lookupEnv ρ x = some v ∧ VT S P v (substTy θ t)
      | none => lookupEnv ρ x = none) := by
   intro ρ
   induction ρ with
-  | nil =>
-    intro Γ h x
-    cases Γ with
-    | nil => simp [lookupVar, lookupEnv]
-    | cons _ _ => simp [envTy] at h
+  | nil => intro Γ h x; cases h; simp [lookupVar, lookupEnv]
   | cons b ρ ih =>
     intro Γ h x
-    cases Γ with
-    | nil => simp [envTy] at h
-    | cons p Γ' =>
-      obtain ⟨k, v⟩ := b
-      obtain ⟨k', t⟩ := p
-      simp only [envTy, Bool.and_eq_true, beq_iff_eq] at h
-      obtain ⟨⟨rfl, hv⟩, hrest⟩ := h
+    cases h with
+    | @cons _ k v t _ Γ' hv hrest =>
       simp only [lookupVar, lookupEnv_cons]
       by_cases hk : (k == x) = true
       · simp only [hk, if_true]; exact ⟨v, rfl, hv⟩
       · simp only [hk]; exact ih hrest x
 
-theorem envTy_cons {S : Sig} {θ : Subst} {ρ : Env} {Γ : TyEnv} {x : String} {v : Val} {t : Ty}
-    (hv : valTy S v (substTy θ t) = true) (h : envTy S θ ρ Γ = true) : envTy S θ ((x, v) :: ρ) ((x, t) :: Γ) = true := by
-  simp [envTy, hv, h]
-
-theorem envTy_bind {S : Sig} {θ : Subst} : ∀ (ps : List (String × Ty)) (vs : List Val) (ρ : Env) (Γ : TyEnv),
-    valTys S vs (substTys θ (ps.map (·.2))) = true → envTy S θ ρ Γ = true →
-    envTy S θ (bindParams (ps.map (·.1)) vs ρ) (bindAll ps Γ) = true := by
+theorem ET_bind {θ : Subst} : ∀ (ps : List (String × Ty)) (vs : List Val) (ρ : Env) (Γ : TyEnv),
+    VTs S P vs (substTys θ (ps.map (·.2))) → ET S P θ ρ Γ →
+    ET S P θ (bindParams (ps.map (·.1)) vs ρ) (bindAll ps Γ) := by
   intro ps
   induction ps with
   | nil =>
     intro vs ρ Γ h hρ
     simp only [List.map_nil, substTys] at h
-    cases vs with
-    | nil => simpa [bindParams, bindAll] using hρ
-    | cons _ _ => simp [valTys] at h
+    cases h
+    simpa [bindParams, bindAll] using hρ
   | cons p ps ih =>
     intro vs ρ Γ h hρ
     obtain ⟨x, t⟩ := p
     simp only [List.map_cons, substTys] at h
-    cases vs with
-    | nil => simp [valTys] at h
-    | cons v vs =>
-      simp only [valTys, Bool.and_eq_true] at h
+    cases h with
+    | cons h1 h2 =>
       simp only [List.map_cons, bindParams, bindAll]
-      exact ih vs _ _ h.2 (envTy_cons h.1 hρ)
+      exact ih _ _ _ h2 (.cons h1 hρ)
 
 /-! ### variant knowledge -/
 
@@ -287,15 +274,25 @@ theorem eval_traitCall (n : Nat) (P : Prog) (ρ : Env) (w : World) (tr m : Strin
       cases v <;> rfl
 
 /-- **a value of a concrete type carries the key of that type** -/
-theorem valKey_of_valTy {S : Sig} {v : Val} {τ : Ty} (hc : concreteTy τ = true) (h : valTy S v τ = true) :
-    valKey v = tyKey τ := by
-  have hn := valTy_nominal h
-  cases τ <;> simp [concreteTy] at hc <;> cases v <;> simp [valTy, isEnumTy, isStructTy] at h <;>
-    simp [nominalArgs, isEnumTy, isStructTy] at hn <;>
-    first
-    | rfl
-    | (obtain ⟨rfl, rfl⟩ := h; simp [valKey, tyKey])
-    | (subst h; simp [valKey, tyKey])
-    | (subst hn; simp [valKey, tyKey])
+theorem valKey_of_VT {v : Val} {τ : Ty} (hc : concreteTy τ = true) (h : VT S P v τ) : valKey v = tyKey τ := by
+  cases h with
+  | unit => rfl
+  | bool => rfl
+  | int => rfl
+  | float => rfl
+  | str => rfl
+  | tuple _ => simp [concreteTy] at hc
+  | @enumV n idx args _ fts h1 h2 _ =>
+    have hn := enumFieldTys_nominal h2
+    cases τ <;> simp [concreteTy] at hc <;> simp [isEnumTy] at h1
+    simp [nominalArgs] at hn
+    subst hn; simp [valKey, tyKey]
+  | @structV n fs _ fts h1 h2 _ =>
+    have hn := fieldTys_nominal (c := .struct n) h2
+    cases τ <;> simp [concreteTy] at hc <;> simp [isStructTy] at h1
+    simp [nominalArgs, ctorTyName] at hn
+    subst hn; simp [valKey, tyKey]
+  | closure _ _ _ => simp [concreteTy] at hc
+  | fn θ _ => simp [concreteTy, fnTy, substTy] at hc
 
 end Goml.ValTy
